@@ -210,6 +210,8 @@ def check(prop, tier, only=None, quiet=False):
     ev_path = os.path.join(util.VERIF, "evidence", f"{prop}.json")
     if os.path.exists(ev_path) and only is None:
         os.remove(ev_path)
+    if only is None:
+        shutil.rmtree(os.path.join(util.VERIF, "replays", prop), ignore_errors=True)
     records, status, hashseeds = run_shards(prop, tier, seed, plan, only=only)
     wall = time.monotonic() - t0
     m = merge(prop, tier, seed, P, records, hashseeds, wall)
